@@ -378,3 +378,14 @@ def close3(a, b, tol):
     if a is None or b is None or any(x is None for x in a):
         return False
     return all(abs(a[i] - b[i]) <= tol for i in range(3))
+
+
+def gen_on_wall(inp, i):
+    """does generator i lie exactly on a wall of a reflective box (active axes only)?"""
+    if inp.periodic:
+        return False
+    g = inp.ngens[i]
+    for ax in range(inp.dim):
+        if g[ax] == inp.na[ax] or g[ax] == inp.na[ax] + inp.nw[ax]:
+            return True
+    return False
